@@ -68,6 +68,6 @@ Spec == Init /\ [][Next]_vars
 
 AtEnd == l = NRec + 1
 Brief == IF AtEnd THEN [l |-> l, bad |-> bad, nfb |-> nfb, nexp |-> nexp] ELSE [l |-> l]
-C14 == AtEnd => \A b \in bad : b[1] # "C14"
+C14 == AtEnd => NoneFor(bad, "C14")
 Report == AtEnd => PrintT(<<"TFRC-REPORT", nfb, nexp>>)
 ====================================================================================
